@@ -6,9 +6,9 @@
    plate_wf T pl : means and variances of pl are both T x n_exp arrays.
    triple_valid T t : the three sample indices of t are < T (what the unranking produces). *)
 From Coq Require Import ZArith List QArith Qcanon Permutation Lia.
-From Batchie Require Import Lib.Sexp Lib.Num Model.Unrank Model.Dbal
+From Batchie Require Import Lib.Sexp Lib.Num Lib.PyRt Model.Unrank Model.Dbal
   Proofs.C05Pad Proofs.C05Lse Proofs.C05Kernel Proofs.C05Scorer Proofs.C05Inv Proofs.C05Relabel
-  Proofs.C05Checked.
+  Proofs.C05Checked Generated.SrcDbal Proofs.C05Source.
 Import ListNotations.
 
 (* the vectorised kernel on the 0-padded means / NaN-padded variances of a list of plates =
@@ -225,3 +225,121 @@ Example C05_ex_relabel :
      = show (hetero ex_orc [ex_C] ex_D3 1%Qc [(2, 1, 0)]%nat)
   /\ hetero ex_orc [ex_C] ex_D3 1%Qc [(2, 1, 0)]%nat <> [None].
 Proof. vm_compute. repeat split; discriminate. Qed.
+
+(* ==== source-translation links ====
+   The src_* functions are the Gallina translations of the functions of /repo's scoring/gaussian_dbal.py, regenerated
+   on every run (Generated/SrcDbal.v; harness/py2gal.py with the configurations C05_* of harness/src_functions.py).
+   Float arrays are lists of lists of exact rationals, NaN = None; a ScreenSubset is (selection_vector, (means,
+   variances)) = what predict_mean_all / predict_variance_all return for it; `draws` are the recorded rng.choice answers. *)
+
+(* GaussianDBALScorer.score, whole method, for EVERY integer max_chunk: the translation equals the model scorer (with
+   the ZeroDivisionError / np.array_split ValueError of a non-positive max_chunk in front: scorer_py).  Hypotheses, all
+   facts about every reachable call: the plates dict has distinct keys (it is a dict); the plates' selection vectors have
+   one common length (they are views of one screen; they only feed a mask nothing reads); one recorded rng.choice answer
+   is available per sub-group (the kernel is called once per sub-group). *)
+Theorem C05_model_is_source_score : forall orc (max_chunk : Z) (plates : list (Z * pyplate)) (D : arr2) (draws : list (list Z)),
+  NoDup (map fst plates) -> sel_uniform plates ->
+  (ceil_div (length plates) (Z.to_nat max_chunk) <= length draws)%nat ->
+  src_score orc max_chunk plates D draws = scorer_py orc max_chunk (forget_sel plates) D draws.
+Proof. exact src_score_is_model. Qed.
+Print Assumptions C05_model_is_source_score.
+
+(* for a positive max_chunk that is the model scorer of C05_scorer_checked_ok / C05_alone itself *)
+Theorem C05_model_is_source_score_positive_chunk : forall orc (mc : nat) (plates : list (Z * pyplate)) D draws,
+  (0 < mc)%nat -> NoDup (map fst plates) -> sel_uniform plates ->
+  (ceil_div (length plates) mc <= length draws)%nat ->
+  src_score orc (Z.of_nat mc) plates D draws = scorer_checked orc mc (forget_sel plates) D draws.
+Proof. exact src_score_is_scorer_checked. Qed.
+Print Assumptions C05_model_is_source_score_positive_chunk.
+
+(* pad_ragged_arrays_to_dense_array, whole function, any element type, any pad value, ALL inputs: np.max of no arrays
+   raises, otherwise the model's pad_ragged *)
+Theorem C05_model_is_source_pad_ragged_arrays_to_dense_array : forall (A : Type) (arrays : list (list (list A))) (pad : A),
+  src_pad A arrays pad = match arrays with [] => Err 27%Z | _ => Ok (pad_ragged pad arrays) end.
+Proof. exact src_pad_is_model. Qed.
+Print Assumptions C05_model_is_source_pad_ragged_arrays_to_dense_array.
+
+(* the two padding calls the scorer and the wrappers make (primitives of their translations) ARE that translation *)
+Theorem C05_model_is_source_pad_means : forall ms, pad_means_py ms = src_pad Qc ms 0%Qc.
+Proof. exact pad_means_py_is_source. Qed.
+Print Assumptions C05_model_is_source_pad_means.
+Theorem C05_model_is_source_pad_vars : forall vs, pad_vars_py vs = src_pad (option Qc) (map (map (map Some)) vs) None.
+Proof. exact pad_vars_py_is_source. Qed.
+Print Assumptions C05_model_is_source_pad_vars.
+
+(* dbal_fast_gaussian_scoring_heteroscedastic, whole function, on the means / variances of ANY plate list *)
+Theorem C05_model_is_source_heteroscedastic : forall orc (plates : list plate) D df idxs,
+  src_hetero orc (map fst plates) (map snd plates) D df idxs
+  = match plates with [] => Err 27%Z | _ => hetero_checked orc plates D df idxs end.
+Proof. exact src_hetero_is_model. Qed.
+Print Assumptions C05_model_is_source_heteroscedastic.
+
+(* dbal_fast_gaussian_scoring_homoscedastic, whole function, ALL inputs *)
+Theorem C05_model_is_source_homoscedastic : forall orc (preds : list arr2) (variances : arr2) D df idxs,
+  src_homo orc preds variances D df idxs
+  = match preds with
+    | [] => match variances with [] => Err 27%Z | _ => Err 25%Z end
+    | _ => homo_checked orc preds variances D df idxs
+    end.
+Proof. exact src_homo_is_model. Qed.
+Print Assumptions C05_model_is_source_homoscedastic.
+
+(* dbal_fast_gauss_scoring_vectorized: its three shape checks (a run of top-level statements), ALL inputs *)
+Theorem C05_model_is_source_kernel_checks : forall (pred : arr3) (vars : arr3n) (D : arr2),
+  src_kernel_checks pred vars D
+  = let '(np, T, E) := shape3 pred in
+    let '(np', T', E') := shape3 vars in
+    if negb (Nat.eqb np np' && Nat.eqb T T' && Nat.eqb E E') then Err 20%Z
+    else if negb (Nat.eqb (fst (shape2 D)) (snd (shape2 D))) then Err 21%Z
+    else if negb (Nat.eqb (fst (shape2 D)) T) then Err 22%Z
+    else Ok tt.
+Proof. exact src_kernel_checks_spec. Qed.
+Print Assumptions C05_model_is_source_kernel_checks.
+
+(* its index-to-triple run (n_combos = comb(n_thetas, 3), the raise below 3 samples, min with the budget, rng.choice,
+   get_combination_at_sorted_index per index, the three index arrays), for a budget >= 1 and a recorded answer d that
+   obeys numpy's contract for rng.choice(comb, size=min(comb, budget), replace=False) *)
+Theorem C05_model_is_source_kernel_triples : forall (pred : arr3) (mc : Z) (d : list Z) (rest : list (list Z)) np T E,
+  shape3 pred = (np, T, E) -> (1 <= mc)%Z ->
+  choice_ok (comb3 (Z.of_nat T)) (Z.min (comb3 (Z.of_nat T)) mc) d = true ->
+  src_kernel_triples pred mc (d :: rest)
+  = if (T <? 3)%nat then Err 23%Z
+    else dor zs <- res_map_all (fun i => unrank3 i (Z.of_nat T)) d;
+         dor t3 <- unzip3 zs;
+         Ok (t3, rest).
+Proof. exact src_kernel_triples_spec. Qed.
+Print Assumptions C05_model_is_source_kernel_triples.
+
+(* hence the model's checked kernel (what every theorem above about hetero_checked / scorer_checked runs) IS: the
+   translated checks, then the translated index run on the recorded answer, then the tensor expressions [kernel]
+   (not translated: correspondence only) on the triples that run delivers *)
+Theorem C05_model_is_source_kernel : forall orc (pred : arr3) (vars : arr3n) (D : arr2) df (mc : Z) (d : list Z) rest,
+  (1 <= mc)%Z ->
+  (let T := Z.of_nat (snd (fst (shape3 pred))) in choice_ok (comb3 T) (Z.min (comb3 T) mc) d = true) ->
+  kernel_checked orc pred vars D df d
+  = dor _ <- src_kernel_checks pred vars D;
+    dor r <- src_kernel_triples pred mc (d :: rest);
+    Ok (kernel orc pred vars D df (nat_triples (fst r))).
+Proof. exact kernel_checked_is_source. Qed.
+Print Assumptions C05_model_is_source_kernel.
+
+(* non-vacuity of the links' hypotheses: a dict of three plates with distinct keys and selection vectors of one length,
+   two recorded draws obeying the contract; the translation runs to a value (no error), the one of C05_ex_scorer *)
+Definition ex_py : list (Z * pyplate) :=
+  [(7%Z, ([true; false; false], ex_B)); (3%Z, ([false; true; true], ex_A)); (5%Z, ([true; false; false], ex_B))].
+Example C05_ex_source_hyps :
+  NoDup (map fst ex_py) /\ sel_uniform ex_py /\ (ceil_div (length ex_py) (Z.to_nat 2) <= length [[3; 0; 1; 2]; [2; 1; 0; 3]]%Z)%nat
+  /\ choice_ok (comb3 4) (Z.min (comb3 4) 5000) [3; 0; 1; 2]%Z = true.
+Proof.
+  split; [|split; [|split]].
+  - repeat constructor; cbn; intuition discriminate.
+  - exists 3%nat. repeat constructor.
+  - vm_compute. lia.
+  - vm_compute. reflexivity.
+Qed.
+Example C05_ex_source_score :
+  option_map (map (fun ks => (fst ks, option_map this (snd ks))))
+    (match src_score ex_orc 2 ex_py ex_D [[3; 0; 1; 2]; [2; 1; 0; 3]]%Z with Ok r => Some r | Err _ => None end)
+  = Some (map (fun ks => (fst ks, option_map this (snd ks)))
+              (scorer ex_orc 2 [(7%Z, ex_B); (3%Z, ex_A); (5%Z, ex_B)] ex_D [ex_ts; rev ex_ts])).
+Proof. vm_compute. reflexivity. Qed.
